@@ -526,7 +526,9 @@ class X12LoopDataNode(X12DataNode):
         Get a pyx12.segment.Segment instance, building one from a string
         """
         if isinstance(seg_obj, pyx12.segment.Segment):
-            return seg_obj
+            # the tree gets a segment of its own: the caller's object (possibly
+            # part of another tree) is not shared
+            return seg_obj.copy()
         elif isinstance(seg_obj, string_types):
             (seg_term, ele_term, subele_term) = self._get_terminators()
             assert seg_term is not None, 'seg_term is none, node contains no X12SegmentDataNode children?'
